@@ -548,16 +548,17 @@ impl Family for AliasDiamonds {
 pub struct InheritanceGraphs;
 impl Family for InheritanceGraphs {
     fn name(&self) -> String {
-        "inheritance/all 2^16 base-list assignments over 4 interfaces (incl. self, diamonds), with an operation each and with empty bodies".into()
+        "inheritance/all 2^16 base-list assignments over 4 interfaces (incl. self, diamonds), with an operation each and with empty bodies; in one module, and as M1::P M1::Q M2::P M2::Q (like-named interfaces of two modules and files)".into()
     }
     fn len(&self) -> u64 {
-        2 * 65536
+        4 * 65536
     }
     fn describe(&self, idx: u64) -> Value {
-        json!({"file": self.text(idx)})
+        json!({"files": self.texts(idx)})
     }
     fn run(&self, idx: u64) -> CaseOut {
-        let text = self.text(idx);
+        let texts = self.texts(idx);
+        let text = texts.join("--- next file ---\n");
         let mut out = CaseOut::new(hash_str(&text));
         out.validated = 1;
         let idx = idx % 65536;
@@ -570,7 +571,8 @@ impl Family for InheritanceGraphs {
         }
         let r = reach(4, &adj);
         let cyclic = (0..4).any(|i| r[i][i]);
-        match compile_texts(&[&text], None) {
+        let refs: Vec<&str> = texts.iter().map(|s| s.as_str()).collect();
+        match compile_texts(&refs, None) {
             Err((loc, msg)) => {
                 out.class = "panic".into();
                 out.violate(format!("c05/inheritance/panic@{loc}"), format!("panic at {loc}: {msg}\n--- input ---\n{text}"));
@@ -593,18 +595,25 @@ impl Family for InheritanceGraphs {
     }
 }
 impl InheritanceGraphs {
-    fn text(&self, idx: u64) -> String {
-        // the second half of the family: empty bodies (nothing but the inheritance loop can make it an error)
-        let with_ops = idx < 65536;
+    fn texts(&self, idx: u64) -> Vec<String> {
+        // second and fourth quarter of the family: empty bodies (nothing but the inheritance loop can make it an error);
+        // third and fourth quarter: like-named interfaces of two modules
+        let with_ops = (idx / 65536) % 2 == 0;
+        let two_modules = idx / 65536 >= 2;
         let idx = idx % 65536;
-        let mut s = String::from("module G\n");
+        let scoped = |j: usize| format!("M{}::{}", j / 2 + 1, ["P", "Q"][j % 2]);
+        let mut files = if two_modules { vec![String::from("module M1\n"), String::from("module M2\n")] } else { vec![String::from("module G\n")] };
         for i in 0..4 {
-            let bases: Vec<String> = (0..4).filter(|j| (idx >> (i * 4 + j)) & 1 == 1).map(|j| format!("I{j}")).collect();
+            let bases: Vec<String> = (0..4)
+                .filter(|j| (idx >> (i * 4 + j)) & 1 == 1)
+                .map(|j| if !two_modules { format!("I{j}") } else if i / 2 == j / 2 { ["P", "Q"][j % 2].to_string() } else { scoped(j) })
+                .collect();
             // distinct operation names: an inherited operation may not be redeclared
             let body = if with_ops { format!("op{i}()") } else { String::new() };
-            s.push_str(&format!("interface I{i}{}{} {{ {body} }}\n", if bases.is_empty() { "" } else { " : " }, bases.join(", ")));
+            let name = if two_modules { ["P", "Q"][i % 2].to_string() } else { format!("I{i}") };
+            files[if two_modules { i / 2 } else { 0 }].push_str(&format!("interface {name}{}{} {{ {body} }}\n", if bases.is_empty() { "" } else { " : " }, bases.join(", ")));
         }
-        s
+        files
     }
 }
 
